@@ -199,6 +199,12 @@ func runC03(env *core.Env) {
 		crlf := f.SA.WithLog(bytes.ReplaceAll(f.SA.Log(), []byte("\n"), []byte("\r\n")))
 		roots = append(roots, &c03State{Store: crlf, Path: []string{"S_A-with-CRLF-line-ends"}, Cmds: []int{0, 3, 4, 9, 10}})
 	}
+	{
+		// a store that holds no event yet (fresh init): the very first write is the one that is killed, so what is left
+		// is a log consisting of nothing but a fragment; the commands that create something are crashed, all follow
+		fresh := core.Store{".ergo/plans.jsonl": {}, ".ergo/lock": {}}
+		roots = append(roots, &c03State{Store: fresh, Path: []string{"S_fresh-init"}, Cmds: []int{0, 1, 9, 11}})
+	}
 	// the write cut short by the kernel (disk full / file size limit) with the process still alive to react: whatever
 	// it does then (error out, roll back), everything acknowledged before must still be there (cheap, so it runs first)
 	shortCov := shortWritePhase(env, "C03", f.SA, []crashCmd{menu[0], menu[3], menu[4], menu[8]})
